@@ -41,6 +41,19 @@ fn main() {
         pool::worker_main(&prop, tier, seed, shard, nshards, &out, &journal);
         return;
     }
+    if args[1] == "--run" && args.len() > 2 {
+        let text = std::fs::read_to_string(&args[2]).expect("read program");
+        let mut opts = impl_run::RunOpts::budget(args.get(3).and_then(|s| s.parse().ok()).unwrap_or(2_000_000));
+        opts.typed_vars = true;
+        opts.depths = true;
+        opts.rows = true;
+        let t0 = std::time::Instant::now();
+        match impl_run::run_src(&text, &opts) {
+            Err(e) => println!("front error: {}", e.to_json()),
+            Ok(o) => println!("stdout={:?}\nend={}\nticks={} statements={} typed={:?} depth={:?} wall={:?}", o.stdout_str(), o.end.to_json(), o.ticks, o.statements, o.typed_anomaly, o.depth_anomaly, t0.elapsed()),
+        }
+        return;
+    }
     if args[1] == "--corpus" {
         let all = corpus::candidates();
         let acc = corpus::accepted();
